@@ -240,7 +240,59 @@ MUTANTS = [
       "            resp = do_http(\"PUT\", url, infileobj)\n",
       "            url = self.options['node-url'] + \"uri\"\n            with open(childpath, \"rb\") as infileobj:\n"
       "                resp = do_http(\"PUT\", url, infileobj)\n", None),
+    # ---- C42.4: the reused cap may travel through a temporary before it is returned
+    M("benign-tb-reuse-answer-hoisted", T,
+      "            return False, bdb_results.was_uploaded(), metadata",
+      "            answer = False, bdb_results.was_uploaded(), metadata\n            return answer", None),
+    M("benign-tb-dir-reuse-answer-hoisted", T,
+      "            return False, r.was_created()", "            oldcap = r.was_created()\n            return False, oldcap", None),
+    # ---- C42.7 only the body of a successful response is recorded as a cap
+    M("put-status-test-negated", T,
+      "            if resp.status not in (200, 201):\n                raise HTTPError(\"Error during file PUT\", resp)",
+      "            if not (resp.status not in (200, 201)):\n                raise HTTPError(\"Error during file PUT\", resp)", "C42.7"),
+    M("put-status-cmp-flipped", T,
+      "            if resp.status not in (200, 201):\n                raise HTTPError(\"Error during file PUT\", resp)",
+      "            if resp.status in (200, 201):\n                raise HTTPError(\"Error during file PUT\", resp)", "C42.7"),
+    M("put-failure-not-raised", T,
+      "                raise HTTPError(\"Error during file PUT\", resp)", "                pass", "C42.7"),
+    M("put-failure-only-warned", T,
+      "                raise HTTPError(\"Error during file PUT\", resp)",
+      "                self.warn(\"Error during file PUT: %d\" % resp.status)", "C42.7"),
+    M("put-status-404-accepted", T,
+      "            if resp.status not in (200, 201):\n                raise HTTPError(\"Error during file PUT\", resp)",
+      "            if resp.status not in (200, 201, 404):\n                raise HTTPError(\"Error during file PUT\", resp)", "C42.7"),
+    M("put-status-of-other-response", T,
+      "            if resp.status not in (200, 201):\n                raise HTTPError(\"Error during file PUT\", resp)",
+      "            probe = do_http(\"GET\", url)\n            if probe.status not in (200, 201):\n"
+      "                raise HTTPError(\"Error during file PUT\", resp)", "C42.7"),
+    M("mkdir-status-and-instead-of-or", T,
+      "    if resp.status < 200 or resp.status >= 300:\n        raise HTTPError(\"Error during mkdir\", resp)",
+      "    if resp.status < 200 and resp.status >= 300:\n        raise HTTPError(\"Error during mkdir\", resp)", "C42.7"),
+    M("mkdir-failure-not-raised", T,
+      "        raise HTTPError(\"Error during mkdir\", resp)", "        pass", "C42.7"),
+    M("mkdir-upper-bound-dropped", T,
+      "    if resp.status < 200 or resp.status >= 300:\n", "    if resp.status < 200:\n", "C42.7"),
+    M("mkdir-upper-bound-500", T,
+      "    if resp.status < 200 or resp.status >= 300:\n", "    if resp.status < 200 or resp.status >= 500:\n", "C42.7"),
+    M("benign-put-status-hoisted", T,
+      "            if resp.status not in (200, 201):\n                raise HTTPError(\"Error during file PUT\", resp)",
+      "            status = resp.status\n            ok = status in (200, 201)\n            if not ok:\n"
+      "                raise HTTPError(\"Error during file PUT\", resp)", None),
+    M("benign-put-status-equalities", T,
+      "            if resp.status not in (200, 201):\n                raise HTTPError(\"Error during file PUT\", resp)",
+      "            if resp.status == 200 or 201 == resp.status:\n                pass\n            else:\n"
+      "                raise HTTPError(\"Error during file PUT\", resp)", None),
+    M("benign-put-response-renamed", T,
+      "            resp = do_http(\"PUT\", url, infileobj)\n            if resp.status not in (200, 201):\n"
+      "                raise HTTPError(\"Error during file PUT\", resp)\n\n            filecap = resp.read().strip()",
+      "            answer = do_http(\"PUT\", url, infileobj)\n            if answer.status not in [200, 201]:\n"
+      "                raise HTTPError(\"Error during file PUT\", answer)\n\n            filecap = answer.read().strip()", None),
+    M("benign-mkdir-chained-range", T,
+      "    if resp.status < 200 or resp.status >= 300:\n        raise HTTPError(\"Error during mkdir\", resp)",
+      "    if not (200 <= resp.status < 300):\n        raise HTTPError(\"Error during mkdir\", resp)", None),
+    M("benign-mkdir-bounds-mirrored", T,
+      "    if resp.status < 200 or resp.status >= 300:\n        raise HTTPError(\"Error during mkdir\", resp)",
+      "    failed = 299 < resp.status or 200 > resp.status\n    if failed:\n        raise HTTPError(\"Error during mkdir\", resp)", None),
     # ---- vanished anchor
-    M("vanish-check-file", B, "    def check_file(self, path, use_timestamps=True):", "    def check_file_v2(self, path, use_timestamps=True):",
-      "ANALYSIS-ERROR"),
+    M("vanish-mkdir", T, "def mkdir(contents, options):", "def mkdir_immutable(contents, options):", "ANALYSIS-ERROR"),
 ]
